@@ -1039,6 +1039,10 @@ int vorbis_synthesis_lapout(vorbis_dsp_state *v,float ***pcm){
     *pcm=v->pcmret;
   }
 
+  /* a repeated call without a new block consolidates the buffer again
+     and can push pcm_returned past the end of the data: that is 'no
+     samples', never a negative count */
+  if(n1+n-v->pcm_returned<0)return(0);
   return(n1+n-v->pcm_returned);
 
 }
